@@ -9,7 +9,7 @@ table = r6_dispatch.run_r6(run)
 cells = {}
 for c, st in table.items():
     L, op, R = c.split(' ')
-    if expected(op, L, R)[0] == 'raise' and st in ('holds', 'undecided'):
+    if expected(op, L, R)[0] in ('raise', 'obj', 'plain') and st in ('holds', 'undecided'):
         cells[c] = st
-json.dump({'_comment': 'must-raise cells of the operator table as decided on the repaired tree; holds = rejected by type dispatch alone; undecided = numeric kernel decides (reviewed by hand)', 'cells': cells}, open(os.path.join(os.path.dirname(os.path.dirname(os.path.abspath(__file__))), 'design', 'r6_baseline.json'), 'w'), indent=0, sort_keys=True)
+json.dump({'_comment': 'must-raise and documented-result cells of the operator table as decided on the repaired tree; holds = decided by type dispatch alone; undecided = numeric kernel decides (reviewed by hand)', 'cells': cells}, open(os.path.join(os.path.dirname(os.path.dirname(os.path.abspath(__file__))), 'design', 'r6_baseline.json'), 'w'), indent=0, sort_keys=True)
 print(len(cells), 'cells;', sum(1 for v in cells.values() if v == 'undecided'), 'undecided')
